@@ -468,13 +468,18 @@ def cases(tier, check='values'):
                              # a node that no face uses: clipping with a geometry that covers every face still drops it
                              ('tqpx', ('edge_node', 'face_edge'), dict(start_index=0, fill='nan')),
                              ('tqpx', ('edge_node',), dict(start_index=1, fill='attr')),
+                             # a square connectivity table (four quads) stored with the face dimension last
+                             ('qqqq', ('edge_node',), dict(start_index=0, fill='nan', transposed=True)),
+                             ('qqqq', ('edge_node', 'face_edge'), dict(start_index=1, fill='nan', transposed=True)),
+                             # tables that do not count from the same base
+                             ('tqp', ('edge_node', 'face_edge', 'edge_face'), dict(start_index=1, fill='attr', extra=dict(start_index_by_table={'face_edge': 0, 'edge_face': 0, 'edge_node': 0}))),
                              # start_index stored as the text "1" / "0"
                              ('tqp', ('edge_node', 'face_edge'), dict(start_index=1, fill='attr', extra=dict(start_index_as_text=True))),
                              ('qqq', ('edge_node', 'edge_face'), dict(start_index=0, fill='nan', extra=dict(start_index_as_text=True))),
                              # tables built in memory in other integer types (nothing in the encoding)
                              ('tqp', ('edge_node', 'face_edge'), dict(start_index=1, fill='attr', dtype='int64')),
                              ('tqp', ('edge_node', 'edge_face'), dict(start_index=0, fill='attr', dtype='int16', fill_value=-1))):
-        yield Case(f'{check}:mesh:{mesh}:{"+".join(supply)}:start{kw["start_index"]}:{kw["fill"]}:fill{kw.get("fill_value")}:coords{int(kw.get("coords_as_coords", False))}:edges{int(kw.get("with_edges", True))}:{kw.get("dtype", "int32")}{":text-start-index" if kw.get("extra") else ""}:buf0:clip', body_mesh,
+        yield Case(f'{check}:mesh:{mesh}:{"+".join(supply)}:start{kw["start_index"]}:{kw["fill"]}:fill{kw.get("fill_value")}:coords{int(kw.get("coords_as_coords", False))}:edges{int(kw.get("with_edges", True))}:{kw.get("dtype", "int32")}{":" + "+".join(kw["extra"]) if kw.get("extra") else ""}{":transposed" if kw.get("transposed") else ""}:buf0:clip', body_mesh,
                    dict(mesh=mesh, supply=supply, buffer=0, via='clip', check=check, **kw), patches=_patches, max_paths=2000)
     for mesh, supply in (('tqp', ('edge_node', 'edge_face', 'face_face')), ('qqq', ('edge_node', 'face_edge', 'edge_face'))):
         yield Case(f'{check}:mesh:{mesh}:{"+".join(supply)}:start1:nan:buf0:dup_faces', body_mesh,
